@@ -7,7 +7,10 @@ QUERIES = [dict(name='simple_processor_lock_across_export', harness='c03_simple'
                 shape='two OnEnd calls and two Shutdown calls; exporter results symbolic; lock flag observed inside the exporter'),
            dict(name='simple_processor_lifecycle', harness='c03_simple', entry='h_simple_lifecycle', unwind=6, timeout=600,
                 shape='OnEnd, ForceFlush, optional explicit Shutdown, destruction; exporter results symbolic')]
-BOUNDS = ['SimpleSpanProcessor, sequential calls; mutual exclusion of the lock itself under interleavings is C11 (spinlock query)']
+HARNESSES['c03_rg'] = dict(src='c03_simple_rg.cc', defines=['OTEL_INTERNAL_LOG_LEVEL=0'], models=['libc.c', 'cxxrt.c', 'stdstring.c', 'single_threaded.c', 'rg_queue.c'], model_defines=['VERIF_CUSTOM_DELETE'], no_default_atomics=True, native_mode='generated_c', roots=['rg_consumer_take'])
+for e, what in (('h_simple_span_rg', 'SimpleSpanProcessor::OnEnd'), ('h_simple_log_rg', 'SimpleLogRecordProcessor::OnEmit')):
+    QUERIES.append(dict(name=e[2:], harness='c03_rg', entry=e, unwind=5, timeout=600, shape=what + ' from an arbitrary lock state (free / held by another thread) with arbitrary interference on the lock flag before every atomic operation (bounded fairness: the other holder releases within two interferences)'))
+BOUNDS = ['SimpleSpanProcessor sequential call scripts; SimpleSpanProcessor::OnEnd and SimpleLogRecordProcessor::OnEmit thread-modularly (one call, arbitrary lock pre-state and interference); mutual exclusion of the lock itself is C11 (spinlock query)']
 OUTSIDE = ['batch size bounds of BatchSpanProcessor/BatchLogRecordProcessor::Export (the clause that an earlier ForceFlush must not lift the bound): the object-level encoding of the batch processors ran out of memory (12-24 GB) in CBMC even for queue size 1 - measured, DESIGN.md 6 - so this clause is NOT decided; the defect seen by reading (Export takes the whole queue once force_flush_pending_sequence != 0) is recorded in DESIGN.md as unconfirmed by the solver',
-           'periodic metric reader', 'SimpleLogRecordProcessor (same shape)']
+           'periodic metric reader']
 ASSUMPTIONS = ['single executing thread inside the query; the lock flag is read through the sequential atomic hooks']
